@@ -402,6 +402,16 @@ def create_sparse_by_pair_marker_file(
     return tmp_output_path
 
 
+def _chunks_for_size(n_elements):
+    """
+    HDF5 chunk shape for a 1-D dataset of n_elements
+    (None, i.e. no explicit chunking, for an empty dataset)
+    """
+    if n_elements > 0:
+        return (min(1000000, n_elements),)
+    return None
+
+
 def _merge_sparse_by_pair_files(
         tmp_path_dict,
         n_genes,
@@ -450,7 +460,7 @@ def _merge_sparse_by_pair_files(
             'up_gene_idx',
             shape=(n_up_indices,),
             dtype=gene_idx_dtype,
-            chunks=(min(1000000, n_up_indices),))
+            chunks=_chunks_for_size(n_up_indices))
         dst_grp.create_dataset(
             'down_pair_idx',
             shape=(n_pairs+1,),
@@ -459,7 +469,7 @@ def _merge_sparse_by_pair_files(
             'down_gene_idx',
             shape=(n_down_indices,),
             dtype=gene_idx_dtype,
-            chunks=(min(1000000, n_down_indices),))
+            chunks=_chunks_for_size(n_down_indices))
 
         col0_values = list(tmp_path_dict.keys())
         col0_values.sort()
